@@ -250,6 +250,22 @@ fn library_result(kind: &str, param: &str, input: &[u8]) -> Option<Vec<u8>> {
         ("unicode", "NFD") => Some(text.nfd().collect::<String>().into_bytes()),
         ("unicode", "NFKC") => Some(text.nfkc().collect::<String>().into_bytes()),
         ("unicode", "NFKD") => Some(text.nfkd().collect::<String>().into_bytes()),
+        ("find_iter", pattern) => {
+            // all non-overlapping matches, leftmost first, as the regex engine itself enumerates them
+            let re = fancy_regex::Regex::new(pattern).ok()?;
+            let mut out = Vec::new();
+            for m in re.find_iter(text) {
+                let m = m.ok()?;
+                out.extend_from_slice(&(m.start() as u32).to_le_bytes());
+                out.extend_from_slice(&(m.end() as u32).to_le_bytes());
+            }
+            Some(out)
+        }
+        ("replace_all", both) => {
+            let (pattern, replacement) = both.split_once('\u{0}')?;
+            let re = fancy_regex::Regex::new(pattern).ok()?;
+            Some(re.replace_all(text, replacement).into_owned().into_bytes())
+        }
         _ => None,
     }
 }
